@@ -337,7 +337,28 @@ def r2b_send_witness(ctx):
         r.check(ok2, 'send-is-derived', 'witness/src/lib.rs', 'compile_fail,E0277 witnesses with compiling twins (SendStream / SendRequest / SendResponse over a !Send buffer): %s' % detail2)
 
 
+def r8_user_values_outside_lock(ctx):
+    r = ctx.rule('C20.R8', 'GUARD', 'user-provided http::Extensions are emptied before the stream lock is taken: their destructors (which may own handles of this connection) never run under the lock')
+    F = ctx.facts
+    n = 0
+    for fname, msg in ((P + 'streams::Streams::send_request', 'request'), (P + 'streams::StreamRef::send_response', 'response'), (P + 'streams::StreamRef::send_push_promise', 'promised request')):
+        f = r.fn(fname)
+        if not f:
+            continue
+        clears = [bi for bi, t in f.calls(lambda t: t['fn'].endswith('Extensions::clear'))]
+        locks = [bi for bi, t in f.calls(lambda t: t['fn'].endswith('Mutex::lock'))]
+        n += len(clears)
+        ok = bool(clears) and bool(locks) and all(f.dominated_by_blocks(l, clears) for l in locks)
+        r.check(ok, 'extensions-cleared-first|' + fname.split('::')[-1], f.file,
+                '%s: the %s extensions are %s' % (fname.split('::')[-1], msg, 'cleared before any lock is acquired' if ok else
+                                                  'NOT cleared before the lock: they are dropped inside the locked region, and an extension owning the last handle of a stream of this connection re-enters the same non-re-entrant mutex (self-deadlock of the caller, then of the connection)'))
+    r.floor(n, 3, 'Extensions::clear sites ahead of the lock')
+
+
 def run(ctx):
+    r8_user_values_outside_lock(ctx)
+    from . import C06
+    C06.r5_ping_atomics(ctx, 'C20.R9')   # lock-free user-ping state: register before check, publish before wake
     L = r1_lock_order(ctx)
     r2_unsafe_census(ctx)
     r2b_send_witness(ctx)
